@@ -109,6 +109,11 @@ impl Monitor for C19 {
     fn sizes(&self, tier: Tier) -> Sizes { match tier { Tier::Quick => Sizes { cases: 2_500, min_nontrivial: 3_000 }, Tier::Thorough => Sizes { cases: 60_000, min_nontrivial: 50_000 } } }
 
     fn generate(&self, rng: &mut Rng, tier: Tier) -> J {
+        if rng.chance(1, 250) {
+            // follow mode with a backlog: the file already holds many complete lines (head), the interrupt arrives from another thread
+            // while they are being worked off
+            return json!({"kind": "follow-backlog", "backlog_lines": 120_000 + rng.below(60_000), "interrupt_delay_us": 500 + rng.below(6000), "head": true, "chunks": []});
+        }
         if rng.chance(1, 12) {
             // follow mode: lines arriving after the interrupt would fail to evaluate (division by zero) or are filtered out
             let n_pre = rng.below(6);
@@ -130,6 +135,7 @@ impl Monitor for C19 {
         obs.hit(&format!("kind:{}", kind));
         if kind == "cli" { return check_cli(case, obs); }
         if kind == "follow" { return check_follow(case, obs); }
+        if kind == "follow-backlog" { return check_follow_backlog(case, obs); }
         let setup = match prepare(case) { Ok(s) => s, Err(e) => return Verdict::Inconclusive(e.chars().take(40).collect()) };
         let v = if kind == "thread" { check_thread(&setup, obs) } else { check_points(&setup, obs) };
         if let Some(p) = &setup.joined { let _ = std::fs::remove_file(p); }
@@ -366,5 +372,36 @@ fn check_follow(case: &J, obs: &mut Obs) -> Verdict {
     }
     if !*cleared.borrow() { return Verdict::Inconclusive("end-of-file-never-reached".into()); }
     if *eofs_after_clear.borrow() > 0 && !post.is_empty() { vs.push(Violation::new("interrupt|follow|kept-reading-after-clear", format!("flag cleared at end of file after {} lines; all {} lines that arrived afterwards were consumed and the reader waited at end of file again", pre.len(), post.len()))); }
+    if vs.is_empty() { Verdict::Held } else { Verdict::Violated(vs) }
+}
+
+
+/// the real FollowFileExecutor in a child process works off a backlog of complete lines; an interrupter thread writes a marker
+/// into the same stdout and clears the flag. Records after the marker = lines consumed after the interrupt: a handful at most
+/// (the records already in flight), never the rest of the backlog.
+fn check_follow_backlog(case: &J, obs: &mut Obs) -> Verdict {
+    use std::process::{Command, Stdio};
+    let total = case["backlog_lines"].as_u64().unwrap_or(0) as usize;
+    let path = eng::write_scratch(&format!("c19-backlog-{}.json", case_hash(case)), serde_json::to_string(case).unwrap().as_bytes());
+    let exe = std::env::current_exe().expect("current_exe");
+    let out = Command::new(&exe).arg("follow-exec").arg(&path).stdin(Stdio::null()).stdout(Stdio::piped()).stderr(Stdio::null()).env("TZ", "UTC").output();
+    let _ = std::fs::remove_file(&path);
+    let Ok(out) = out else { return Verdict::Inconclusive("child-process-failed".into()) };
+    let text = String::from_utf8_lossy(&out.stdout);
+    let mut before = 0usize; let mut after = 0usize; let mut seen_marker = false; let mut status = None;
+    for l in text.lines() {
+        if l == "#interrupt" { seen_marker = true; }
+        else if let Some(s) = l.strip_prefix("#status ") { status = Some(s.to_owned()); }
+        else if l.starts_with('{') { if seen_marker { after += 1; } else { before += 1; } }
+    }
+    obs.evals += 1;
+    let Some(status) = status else { return Verdict::Violated(vec![Violation::new("interrupt|follow-backlog|child-died", format!("no status line; exit {:?}", out.status.code()))]) };
+    if !seen_marker || before >= total { obs.hit("follow-backlog:finished-before-the-interrupt"); return Verdict::Inconclusive("backlog-finished-before-the-interrupt".into()); }
+    obs.hit("follow-backlog:interrupted-inside");
+    obs.sub(crate::rng::mix(&[case_hash(case), 6]));
+    let mut vs = Vec::new();
+    if status != "ok" { vs.push(Violation::new("interrupt|follow-backlog|error-reported", status)); }
+    // records between the marker and the store, plus the line in flight: far below a thousand on any machine
+    if after > 2000 { vs.push(Violation::new("interrupt|follow-backlog|kept-consuming-the-backlog", format!("{} of {} lines were printed before the interrupt and {} after it", before, total, after))); }
     if vs.is_empty() { Verdict::Held } else { Verdict::Violated(vs) }
 }
